@@ -315,14 +315,14 @@ func init() {
 		Gen: func(tier string, seed int64) []fw.Case {
 			l := fw.NewCaseList("C02", tier, seed)
 			rng := l.Rng()
-			for i := 0; i < l.N(60, 600); i++ {
+			for i := 0; i < l.N(60, 2000); i++ {
 				s := randTblSpec(rng, true)
 				if s.Rows > 1300 {
 					s.Rows = 1300
 				}
 				l.Add("invariance", c02Params{T: s, Mode: "invariance"}, 0)
 			}
-			for i := 0; i < l.N(6, 40); i++ {
+			for i := 0; i < l.N(6, 100); i++ {
 				s := randTblSpec(rng, true)
 				if s.NCols == 1 {
 					s.NCols = 2
